@@ -35,6 +35,9 @@ func sendMix(f *fx, k int) {
 // bClass/eClass: 0 -> symbolic 0..9, 1 -> symbolic 10..99
 func H_C10_resend() {
 	role := zz.Param(0)
+	if zz.Param(6) == 1 {
+		zz.TimerStub(true)
+	}
 	st := memory.NewStorage()
 	var w [][]byte // w[i-1] = first transmission of message number i
 	var f *fx
@@ -57,6 +60,31 @@ func H_C10_resend() {
 		w = append(w, f.serve(wire(lg))...)
 	}
 	zz.Assume(f.s.IsLogged())
+	inSeq := 2
+	if zz.Param(6) == 1 {
+		// history produced by the session itself: TestRequest (silence timer), answered, a second
+		// TestRequest, two Heartbeats (heartbeat timer), an echo of the peer's TestRequest
+		zz.Yield()
+		for i := 0; i < 2; i++ {
+			zz.FireTimer(0)
+			zz.Yield()
+			w = append(w, f.h.VerifOut()...)
+			hb := fixgen.CreateHeartbeat()
+			setHdr(hb.Header(), peer, me, inSeq)
+			inSeq++
+			w = append(w, f.serve(wire(hb))...)
+		}
+		for i := 0; i < 2; i++ {
+			zz.FireTimer(1)
+			zz.Yield()
+			w = append(w, f.h.VerifOut()...)
+		}
+		tr := fixgen.CreateTestRequest(string(zz.Bytes(2)))
+		setHdr(tr.Header(), peer, me, inSeq)
+		inSeq++
+		w = append(w, f.serve(wire(tr))...)
+		zz.Assume(f.s.IsLogged())
+	}
 	sendMix(f, zz.Param(1))
 	w = append(w, f.h.VerifOut()...)
 	last := len(w)
@@ -78,7 +106,7 @@ func H_C10_resend() {
 	for r := 0; r < rounds; r++ {
 		b, e := rng(zz.Param(2)), rng(zz.Param(3))
 		rr := fixgen.CreateResendRequest(b, e)
-		setHdr(rr.Header(), peer, me, 2+r)
+		setHdr(rr.Header(), peer, me, inSeq+r)
 		out := f.serve(wire(rr))
 		zz.Reach("served")
 		if zz.Param(2) == 0 && zz.Param(3) == 0 {
